@@ -1,5 +1,6 @@
 //! Verification harness: runs the real mqtt-protocol-core code and writes line-protocol
 //! traces that the Lean driver (`mqttdrv`) replays through the model.
+mod alias;
 mod alloc;
 mod bulk;
 mod conn;
